@@ -21,7 +21,8 @@ Print Assumptions wfb_iff_wf.
      - OAddValue / OUpdateIndex changing the enum size: the same for every referencing signal, and,
        when the enum GROWS, no layout holds two referencing signals                   [D35, D36]
      - OSetMinSize: the size of attached referencing signals does not grow            [D03]
-   The other 21 operations carry no hypothesis. Integer arguments are unbounded (Z): the Go code does
+     - ONewMsg n: msg_size_ok n, i.e. |n| <= 2^60 (the bit count n * 8 is representable) [ctor]
+   The other 20 operations carry no hypothesis. Integer arguments are unbounded (Z): the Go code does
    no arithmetic on an unchecked argument after 594ad9e / 39797fd. *)
 Theorem layout_wf_reachable : forall ops, ok_hist_f ops -> forall m,
   wf (8 * gbytes (run ops) m) (msg_view (run ops) m).
@@ -64,23 +65,44 @@ Theorem layout_wf_full_refuted : ~ layout_wf_full.
 Proof. exact layout_wf_full_false. Qed.
 Print Assumptions layout_wf_full_refuted.
 
-Theorem d03_refuted : exists ops m, ~ wf (8 * gbytes (run ops) m) (msg_view (run ops) m).
-Proof. exact t1_full_refuted_d03. Qed.
+Theorem d03_refuted :
+  let ops := ONewMsg 1 :: ONewEnum :: ONewEnumSig 0 :: ONewStd 4 :: OAppend 0 0 :: OAppend 0 1 :: OSetMinSize 0 4 :: nil in
+  ~ wf (8 * gbytes (run ops) 0%nat) (msg_view (run ops) 0%nat).
+Proof. exact d03_witness. Qed.
 Print Assumptions d03_refuted.
 
-Theorem d36_refuted : exists ops m, ~ wf (8 * gbytes (run ops) m) (msg_view (run ops) m).
-Proof. exact t1_full_refuted_d36. Qed.
+Theorem d36_refuted :
+  let ops := ONewMsg 1 :: ONewEnum :: OSetMinSize 0 2 :: ONewEnumSig 0 :: ONewEnumSig 0 :: ONewStd 3
+             :: OAppend 0 0 :: OAppend 0 1 :: OAppend 0 2 :: OAddValue 0 4 :: nil in
+  ~ wf (8 * gbytes (run ops) 0%nat) (msg_view (run ops) 0%nat).
+Proof. exact d36_witness. Qed.
 Print Assumptions d36_refuted.
 
-Theorem reattach_refuted : exists ops m, ~ wf (8 * gbytes (run ops) m) (msg_view (run ops) m).
-Proof. exact t1_full_refuted_reattach. Qed.
+Theorem reattach_refuted :
+  let ops := ONewMsg 1 :: ONewMsg 2 :: ONewStd 4 :: ONewStd 8 :: OAppend 0 0 :: OAppend 1 1 :: OAppend 1 0 :: nil in
+  ~ wf (8 * gbytes (run ops) 0%nat) (msg_view (run ops) 0%nat).
+Proof. exact reattach_witness. Qed.
 Print Assumptions reattach_refuted.
 
-(* T2 (accepted exactly when the arrangement fits), PARTIAL: proved operation by operation for
-   InsertSignal, AppendSignal, UpdateSizeByte, SetType of a top-level signal (below) and the
-   multiplexer InsertSignal (Properties/C07.v insert_refused_iff), in every state satisfying the
-   invariants. Not proved as theorems (harness oracle `fits` only): SetEnum, AddValue / UpdateIndex
-   with several referencing signals, SetType inside a multiplexer. *)
+(* constructor overflow (finding "ctor"): NewMessage computes sizeByte * 8 in a 64-bit int (the model wraps like
+   the code, [wrap64]). A message of -2^60-1 bytes accepts a signal at bit 100, outside its payload; a message of
+   2^61 bytes refuses a 1-bit signal that fits its payload. Excluded by the hypothesis msg_size_ok of ONewMsg. *)
+Theorem ctor_overflow_refuted :
+  let ops := ONewMsg (-1152921504606846977) :: ONewStd 1 :: OInsert 0 0 100 :: nil in
+  ~ wf (8 * gbytes (run ops) 0%nat) (msg_view (run ops) 0%nat).
+Proof. exact ctor_witness. Qed.
+Print Assumptions ctor_overflow_refuted.
+
+Theorem ctor_overflow_refuses :
+  let ops := ONewMsg 2305843009213693952 :: ONewStd 1 :: nil in
+  snd (step (run ops) (OAppend 0 0)) = RErr OutOfBounds /\ 0 + sz (run ops) 0 <= 8 * gbytes (run ops) 0.
+Proof. exact ctor_refuses. Qed.
+Print Assumptions ctor_overflow_refuses.
+
+(* T2 (accepted exactly when the arrangement fits), operation by operation, in every state satisfying the
+   invariants: InsertSignal, AppendSignal, UpdateSizeByte (stand-alone and on a bus) here; SetType / SetEnum in
+   any container, AddValue / UpdateIndex / RemoveValue further below; the multiplexer InsertSignal in
+   Properties/C07.v (insert_refused_iff); the detaching operations at the end of this file. *)
 Theorem insert_accepted_iff_fits : forall s m x b, InvA s ->
   (is_ok (snd (step_insert s m x b)) <-> memb x (gnames s m) = false /\ fits_insert s m x b).
 Proof. exact insert_accepted_iff. Qed.
@@ -202,7 +224,7 @@ Proof. exact ProofsSpec.compact_spec. Qed.
 Print Assumptions compact_spec.
 
 (* T4 (frame), sizes: an operation changes the size only of the signal it names (SetType / SetEnum),
-   of the signals of the enum it edits, or of the handle it creates. All 27 operations. *)
+   of the signals of the enum it edits, or of the handle it creates. All 29 operations. *)
 Theorem frame_sizes : forall s o y, ~ resized_by s o y -> sz (fst (step s o)) y = sz s y.
 Proof. exact ProofsFrame.frame_sizes. Qed.
 Print Assumptions frame_sizes.
